@@ -7,6 +7,7 @@ var units = map[string]common.UnitFunc{
 	"c04rbc":      unitC04rbc,
 	"byzrbc":      unitByzRbc,
 	"c04orch":     unitC04orch,
+	"c04live":     unitC04live,
 	"byzorch":     unitByzOrch,
 	"c14ctl":      unitC14ctl,
 	"c14stress":   unitC14stress,
